@@ -21,6 +21,7 @@ RULE += ("  " + 'Also (round 7): blocks waiting behind read / per-connection lim
 RULE += ("  " + 'Also (round 8): the second life of a Server object (start, serve, close, start) under cuts and server-close; a back end whose constructor raises for the first sessions.')
 RULE += ("  " + 'Also (round 9): REST followed by APPE/STOR of missing and existing files, the session ended in every way afterwards (open-handle ledger).')
 RULE += ("  " + "Also (round 10): the executor back end with jobs that take a moment (exec_delay) and with a busy pool (exec_queue_delay: a job waits in the queue and is taken back when its waiter is cancelled); every file object opened below the world's directory is recorded, whoever gets to see it, and must be closed at quiescence.")
+RULE += ("  " + 'Also (round 11): PASV / EPSV and a second data connection while a transfer runs on the first, the second never used; the peer says QUIT and keeps its sockets open.')
 ASSUMPTIONS = [
     "in-memory network model (harness/simnet.py); a transport closed only by StreamWriter.__del__ counts as leaked",
     "quiescence bound: 5 virtual seconds after the cut without further input",
